@@ -50,6 +50,9 @@ func verifyProp(eng *Engine, prop string, opts solveOpts) (results []*Result, vc
 			vc.obls = append(vc.obls, &Obl{Name: "generate", Kind: "stale", Guard: "true", Formula: "false", Func: k,
 				Static: "fail:the generator could not produce the obligations of " + k + ": " + firstLine(err.Error())})
 		}
+		if err == nil {
+			eng.applyClaimOnly(k, prop, vc)
+		}
 		vcs = append(vcs, vc)
 	}
 	for _, n := range eng.cf.LemmaOrd {
@@ -203,6 +206,9 @@ func runCheck(eng *Engine, prop, tier, verif string, loadS float64, start time.T
 			vc = newVC(eng, k)
 			vc.obls = append(vc.obls, &Obl{Name: "generate", Kind: "stale", Guard: "true", Formula: "false", Func: k,
 				Static: "fail:the generator could not produce the obligations of " + k + ": " + firstLine(err.Error())})
+		}
+		if err == nil {
+			eng.applyClaimOnly(k, prop, vc)
 		}
 		switch {
 		case c.Trusted:
@@ -687,4 +693,44 @@ func lineWith(s, sub string) string {
 		}
 	}
 	return firstLine(s)
+}
+
+// applyClaimOnly implements `attr claim-only <label>:<P1>,<P2> ...`: an
+// obligation with that label is claimed only by the checks of the listed
+// properties (a clause that states a leg of one property on a function that
+// other properties also depend on); elsewhere it is dropped and reported.
+func (eng *Engine) applyClaimOnly(k, prop string, vc *VC) {
+	c := eng.cf.Contracts[k]
+	if c == nil || prop == "" {
+		return
+	}
+	for _, item := range strings.Fields(c.Attrs["claim-only"]) {
+		kv := strings.SplitN(item, ":", 2)
+		if len(kv) != 2 {
+			continue
+		}
+		listed := false
+		for _, p := range strings.Split(kv[1], ",") {
+			if p == prop {
+				listed = true
+			}
+		}
+		if listed {
+			continue
+		}
+		var kept []*Obl
+		for _, o := range vc.obls {
+			base := o.Name
+			if i := strings.Index(base, "~"); i >= 0 {
+				base = base[:i]
+			}
+			if strings.HasSuffix(base, "#"+kv[0]) {
+				vc.dropped[o.Kind]++
+				continue
+			}
+			kept = append(kept, o)
+		}
+		vc.obls = kept
+		vc.assumed["clause #"+kv[0]+" of "+k+" is claimed only by the checks of "+kv[1]+" (not by this one)"] = true
+	}
 }
